@@ -8,6 +8,9 @@ import (
 	"encoding/binary"
 	"errors"
 	"fmt"
+	"hash/adler32"
+	"hash/crc32"
+	"hash/fnv"
 	"io"
 	"reflect"
 	"strings"
@@ -597,6 +600,26 @@ func genKafkaConv(r *Rand, tier string, emit func(sx.Sx)) {
 			}
 		}
 	}
+	// names that collide under the usual 32-bit hashes (CRC-32 IEEE and Castagnoli, FNV-1a, Adler-32): two different
+	// strings of one length - a table keyed by such a hash must still tell them apart. First in two exchanges of one
+	// connection, then as two topics of one request.
+	for _, pair := range hashCollisionPairs() {
+		for _, a := range kgoApis {
+			if a.key != 3 {
+				continue
+			}
+			g.clean = true
+			g.forced, g.forcedCount = []string{"cl", pair[0]}, 1
+			e1 := g.exchange(a, a.min+1, next())
+			g.forced, g.forcedCount = []string{"cl", pair[1]}, 1
+			e2 := g.exchange(a, a.min+1, next())
+			g.forced, g.forcedCount = []string{"cl", pair[0], pair[1]}, 2
+			e3 := g.exchange(a, a.min+1, next())
+			g.forced, g.forcedCount = nil, 0
+			emit(kafkaConv(g, []kafkaExchange{e1, e2}))
+			emit(kafkaConv(g, []kafkaExchange{e3}))
+		}
+	}
 	// mixed conversations: several requests in flight, APIs without a layout interleaved
 	n := 150
 	if tier == "thorough" {
@@ -865,4 +888,41 @@ func genKafkaSplit(r *Rand, tier string, emit func(sx.Sx)) {
 		emit(sx.L(chunksSx([][]byte{cb}), chunksSx([][]byte{sb})))
 	}
 	g.clean = false
+}
+
+// hashCollisionPairs: pairs of different 16-byte names with the same 32-bit hash, one or two pairs per hash function,
+// found by birthday search over a fixed pseudo-random sequence (deterministic).
+func hashCollisionPairs() [][2]string {
+	hashes := []func([]byte) uint32{
+		crc32.ChecksumIEEE,
+		func(b []byte) uint32 { return crc32.Checksum(b, crc32.MakeTable(crc32.Castagnoli)) },
+		func(b []byte) uint32 { h := fnv.New32a(); h.Write(b); return h.Sum32() },
+		func(b []byte) uint32 { h := fnv.New32(); h.Write(b); return h.Sum32() },
+		adler32.Checksum,
+	}
+	var out [][2]string
+	for _, hf := range hashes {
+		seen := map[uint32]string{}
+		x := uint64(0x9E3779B97F4A7C15)
+		found := 0
+		for i := 0; i < 600000 && found < 2; i++ {
+			b := []byte("events.")
+			x ^= x << 13
+			x ^= x >> 7
+			x ^= x << 17
+			v := x
+			for j := 0; j < 9; j++ {
+				b = append(b, byte('a'+v%26))
+				v /= 26
+			}
+			h := hf(b)
+			if prev, ok := seen[h]; ok && prev != string(b) {
+				out = append(out, [2]string{prev, string(b)})
+				found++
+				continue
+			}
+			seen[h] = string(b)
+		}
+	}
+	return out
 }
